@@ -249,23 +249,29 @@ def check_config(rep, prog):
         helper = lambda cb, f=sa0.file: (not cb.is_pub) and cb.file == f and cb.kind in ("Fn", "AssocFn")  # noqa: E731
         sa, sm = prog.inlined(sa0, depth=2, pred=helper), prog.inlined(sm0, depth=2, pred=helper)
         sl = T.Slicer(sa)
-        # ---- B-index
-        ics = index_calls(sa, sl)
+        # ---- B-index: the index sample_abs hands to the texture's view, by interpretation (sa/tex_sem.py): the recorded components are the
+        # same values however the code spells them (separate statements, array::map, compound assignment, helpers)
+        from . import tex_sem as TXS, absint as A_
+        try:
+            _it, rec_abs, recv_abs, panic_abs = TXS.run(prog, sa0, name)
+        except A_.Undecided as e:
+            raise common.Infra("C12.B-index: %s::sample_abs could not be interpreted (%s)" % (name, e))
+        ics = [(None, None, rv_, ("agg", "array", tuple(TXS.to_term(c_) for c_ in comps_))) for comps_, rv_ in zip(rec_abs, recv_abs)]
         rep.floor("C12.B-index.%s.%s" % (name, cfg), len(ics), 1, "view index in sample_abs")
         bounded = True
         for bi, t, recv, idx in ics:
-            it = strip_all(idx)
+            it = idx
             comps = list(it[2]) if it[0] == "agg" and it[1] == "array" else []
             if len(comps) != 2:
                 bounded = False
-                rep.violate("C12.B-index", "B-index|%s|shape" % name, sa.where(bi, None), "%s::sample_abs indexes the view with %s, not an [x, y] pair" % (name, T.show(it)[:80]), config=cfg)
+                rep.violate("C12.B-index", "B-index|%s|shape" % name, sa0.where(), "%s::sample_abs indexes the view with %s, not an [x, y] pair" % (name, T.show(it)[:80]), config=cfg)
                 continue
             for axis in (0, 1):
                 ok, why = comp(prog, comps[axis], axis)
                 rep.inst("C12.B-index", "%s::sample_abs axis %d: %s -> %s" % (name, axis, why, "bounded" if ok else "UNBOUNDED"), config=cfg)
                 if not ok:
                     bounded = False
-                    rep.violate("C12.B-index", "B-index|%s|axis%d" % (name, axis), sa.where(bi, None),
+                    rep.violate("C12.B-index", "B-index|%s|axis%d" % (name, axis), sa0.where(),
                                 "%s::sample_abs: index component %d has no bounding provenance against its own axis (%s): the view's out-of-bounds panic is reachable"
                                 % (name, axis, why), config=cfg)
             if name == "SamplerRepeatPot":
@@ -273,16 +279,16 @@ def check_config(rep, prog):
                     verdict, why = floor_chain(prog, comps[axis], axis)
                     rep.inst("C12.K-floor", "%s::sample_abs axis %d: %s (%s)" % (name, axis, why, verdict), config=cfg)
                     if verdict == "bad":
-                        rep.violate("C12.K-floor", "K-floor|axis%d" % axis, sa.where(bi, None),
+                        rep.violate("C12.K-floor", "K-floor|axis%d" % axis, sa0.where(),
                                     "SamplerRepeatPot::sample_abs does not address the texel at floor(coordinate) mod size: %s" % why, config=cfg)
                     elif verdict == "unknown":
                         raise common.Infra("C12.K-floor: conversion chain of axis %d not recognised (%s); classify it" % (axis, why))
             # the view indexed is the texture's own data
-            rv = strip_all(recv)
-            own = T.contains(rv, lambda s: s[0] == "field" and s[2] == "Texture.data")
+            rv = recv
+            own = isinstance(recv, tuple) and recv[0] == "sym" and "Texture.data" in str(recv[1])
             if not own:
                 bounded = False
-                rep.violate("C12.B-index", "B-index|%s|data" % name, sa.where(bi, None), "%s::sample_abs indexes something other than tex.data (%s)" % (name, T.show(rv)[:80]), config=cfg)
+                rep.violate("C12.B-index", "B-index|%s|data" % name, sa0.where(), "%s::sample_abs indexes something other than tex.data (%s)" % (name, str(rv)[:80]), config=cfg)
         # ---- P-total
         seen, edges, generic, std_safe = P.inventory(prog, [sa0, sm0])
         P.discharge_generic(edges, items)
@@ -309,53 +315,104 @@ def check_config(rep, prog):
                             "%s: reachable panic edge (%s: %s) for some coordinate; call path: %s"
                             % (name, e.kind, e.what, " ; ".join(CG.path_to(seen, bp)) or CG.short(bp)), config=cfg)
         rep.extra.setdefault("generic_dispatch_assumed_total", {})["%s/%s" % (cfg, name)] = generic
-        # ---- D-rel
-        msl = T.Slicer(sm)
-        dc = [(bi, t) for bi, t in sm.calls(lambda c: c["path"].endswith(name + "::sample_abs"))]
-        ok_rel = False
-        if len(dc) == 1:
-            bi, t = dc[0]
-            a = [msl.operand(x) for x in t["args"]]
-            same_self = T.strip(a[0], refs=True) == ("param", 1) and T.strip(a[1], refs=True) == ("param", 2)
-            uvt = strip_all(a[2])
-            if uvt[0] == "call" and uvt[1].split(" => ")[0].endswith("tex::uv") and same_self:
-                atoms = [
-                    (lambda x: x[0] == "call" and x[1].split(" => ")[0].endswith("::u"), "U"),
-                    (lambda x: x[0] == "call" and x[1].split(" => ")[0].endswith("::v"), "V"),
-                    (lambda x: (x[0] == "call" and x[1].split(" => ")[0].endswith("Texture::<D>::width")) or (T.strip(x, refs=True)[0] == "field" and T.strip(x, refs=True)[2] == "Texture.w"), "W"),
-                    (lambda x: (x[0] == "call" and x[1].split(" => ")[0].endswith("Texture::<D>::height")) or (T.strip(x, refs=True)[0] == "field" and T.strip(x, refs=True)[2] == "Texture.h"), "H"),
-                ]
-                p0, p1 = PL.poly(uvt[2][0], atoms), PL.poly(uvt[2][1], atoms)
-                ok_rel = p0 == {("U", "W"): 1} and p1 == {("H", "V"): 1}
+        # ---- D-rel: the index `sample` ends up with is the one `sample_abs` computes for the coordinate (w*u, h*v) of the same texture
+        from . import symalg as S_
+        try:
+            _it2, rec_rel, recv_rel, _p2 = TXS.run(prog, sm0, name)
+            scaled = ("adt", TXS.VEC, "Vector", [("array", [("symop", "Mul", S_.sym("Texture.w"), S_.sym("tc.u")), ("symop", "Mul", S_.sym("Texture.h"), S_.sym("tc.v"))]), ("tuple", [])])
+            _it3, rec_sub, recv_sub, _p3 = TXS.run(prog, sa0, name, tc=scaled)
+        except A_.Undecided as e:
+            raise common.Infra("C12.D-rel: %s::sample could not be interpreted (%s)" % (name, e))
+
+        def canon(v):
+            if isinstance(v, tuple) and v and v[0] == "symop":
+                args = [canon(x) if isinstance(x, tuple) else x for x in v[2:]]
+                if v[1] in ("Mul", "Add", "BitAnd", "BitOr") and len(args) == 2:
+                    args = sorted(args, key=repr)
+                return ("symop", v[1]) + tuple(args)
+            if isinstance(v, tuple):
+                return tuple(canon(x) if isinstance(x, tuple) else x for x in v)
+            return v
+        ok_rel = bool(rec_rel) and [[canon(c_) for c_ in r_] for r_ in rec_rel] == [[canon(c_) for c_ in r_] for r_ in rec_sub] and recv_rel == recv_sub
         rep.inst("C12.D-rel", "%s::sample(tc) = sample_abs(self, tex, uv(w*u, h*v)): %s" % (name, ok_rel), config=cfg)
         if not ok_rel:
             rep.violate("C12.D-rel", "D-rel|%s" % name, sm.where(), "%s::sample does not delegate to sample_abs with (width*u, height*v) of the same texture" % name, config=cfg)
 
-    # ---- mask construction in SamplerRepeatPot::new
+    # ---- mask construction in SamplerRepeatPot::new, by interpretation over the four (width is a power of two?, height is?) scenarios:
+    # `new` panics unless both are, and then returns w_mask = width - 1, h_mask = height - 1 - however the test is spelled
+    # (is_power_of_two, count_ones() == 1, w & (w - 1) == 0 ...)
+    from . import symalg as S_, absint as A_, tex_sem as TXS
+    from fractions import Fraction as Fr_
     nw = prog.body(TEX + "SamplerRepeatPot::new")
-    nsl = items.slicer(nw)
-    aggs = [(bi, si, s) for bi, si, s in nw.stmts() if s["k"] == "Assign" and s["rv"]["k"] == "Aggregate" and s["rv"].get("adt", "").endswith("tex::SamplerRepeatPot")]
-    rep.floor("C12.mask.%s" % cfg, len(aggs), 1, "SamplerRepeatPot{..} construction")
-    pot_edges = []
-    for sb, tr, fa in G.bool_edges(nw, nsl, lambda d: d[0] == "call" and d[1].split(" => ")[0].endswith("::is_power_of_two")):
-        pot_edges.append((nsl.operand(nw.term(sb)["discr"]), tr))
-    for bi, si, s in aggs:
-        ops = dict(zip(s["rv"]["fields"], [nsl.operand(o) for o in s["rv"]["ops"]]))
-        for fld, dim in (("w_mask", "width"), ("h_mask", "height")):
-            m = T.strip(ops[fld], sites=False, refs=True)
-            while m[0] == "field" and m[2] == "0" and m[1][0] == "bin":
-                m = m[1]
-            ok_form = m[0] == "bin" and m[1].startswith("Sub") and m[3] == ("const", "u32", 1) and bool(T.calls_in(m[2], "Texture::<D>::" + dim))
-            # dominated by is_power_of_two of that same value
-            ok_pot = False
-            for d, tr in pot_edges:
-                d0, _n = G.strip_not(d)
-                if T.strip(d0[2][0], sites=False, refs=True) == T.strip(m[2], sites=False, refs=True) and G.guarded_by(nw, bi, tr):
-                    ok_pot = True
-            rep.inst("C12.B-index", "SamplerRepeatPot::new: %s = %s - 1 (%s) under is_power_of_two(%s): %s" % (fld, dim, ok_form, dim, ok_pot), config=cfg)
-            if not (ok_form and ok_pot):
-                rep.violate("C12.B-index", "B-index|mask|%s" % fld, nw.where(bi, si),
-                            "SamplerRepeatPot::new: %s is not `%s - 1` of a value asserted to be a power of two (%s)" % (fld, dim, T.show(m)[:80]), config=cfg)
+    tf = prog.adts[TEX + "Texture"]["variants"][0]["fields"]
+    mask_bad = []
+    for pot_w in (True, False):
+        for pot_h in (True, False):
+            pot = {"W": pot_w, "H": pot_h}
+
+            def dim_of(v):
+                v = A_.deref_all(itn, v) if False else v
+                while isinstance(v, tuple) and v[0] == "symop" and (v[1].startswith("cast:") or v[1].startswith("f2i:")):
+                    v = v[2]
+                return {"Texture.w": "W", "Texture.h": "H"}.get(v[1]) if isinstance(v, tuple) and v[0] == "sym" else None
+
+            def m_pot(it, args, c, d):
+                k = dim_of(A_.deref_all(it, args[0]))
+                return int(pot[k]) if k else NotImplemented
+
+            def m_ones(it, args, c, d):
+                k = dim_of(A_.deref_all(it, args[0]))
+                return ("symop", "count_ones", S_.sym(k), None) if k else NotImplemented
+
+            def orc(op, x, y):
+                for p_, q_, flip in ((x, y, False), (y, x, True)):
+                    if isinstance(p_, tuple) and p_[0] == "symop" and p_[1] == "count_ones" and q_ == 1:
+                        is1 = pot[p_[2][1]]
+                        return {"Eq": is1, "Ne": not is1}.get(op)
+                    # w & (w - 1) == 0
+                    if isinstance(p_, tuple) and p_[0] == "symop" and p_[1] == "BitAnd" and q_ == 0:
+                        ks = {dim_of(z) for z in (p_[2], p_[3])} | {dim_of(z[2]) for z in (p_[2], p_[3]) if isinstance(z, tuple) and z[0] == "symop" and z[1] == "Sub" and z[3] == 1}
+                        ks.discard(None)
+                        if len(ks) == 1:
+                            is1 = pot[next(iter(ks))]
+                            return {"Eq": is1, "Ne": not is1}.get(op)
+                    # a power of two is not zero
+                    if dim_of(p_) and q_ == 0 and op in ("Eq", "Ne", "Gt", "Lt", "Ge", "Le"):
+                        return {"Eq": False, "Ne": True, "Gt": not flip, "Lt": flip, "Ge": not flip, "Le": flip}[op] if pot[dim_of(p_)] else None
+                return None
+            itn = S_.interp(prog, models={"::is_power_of_two": m_pot, "::count_ones": m_ones}, oracle=orc)
+            itn.float_to_int = lambda v, to: None if (isinstance(v, tuple) and v[0] == "f") else ("symop", "f2i:" + to, v, None)
+            tex = ("adt", TEX + "Texture", "Texture", [{"w": S_.sym("Texture.w"), "h": S_.sym("Texture.h"), "data": ("sym", "Texture.data")}.get(f, A_.UNKNOWN) for f in tf])
+            try:
+                r = A_.deref_all(itn, itn.call_body(nw, [S_.ref_to(tex)], env={}))
+                outcome = "returns"
+            except A_.Panic:
+                outcome, r = "panics", None
+            except A_.Undecided as e:
+                raise common.Infra("C12.B-index: SamplerRepeatPot::new could not be interpreted (%s)" % e)
+            tag = "width %s, height %s a power of two" % ("is" if pot_w else "is NOT", "is" if pot_h else "is NOT")
+            if (outcome == "returns") != (pot_w and pot_h):
+                mask_bad.append(("mask|contract", "SamplerRepeatPot::new %s although %s" % (outcome, tag)))
+            elif r is not None:
+                names = prog.adts[TEX + "SamplerRepeatPot"]["variants"][0]["fields"]
+                for fld, sym_ in (("w_mask", "Texture.w"), ("h_mask", "Texture.h")):
+                    v = A_.deref_all(itn, r[3][names.index(fld)])
+                    core_ = v
+                    try:
+                        def unc(z):
+                            if isinstance(z, tuple) and z[0] == "symop" and (z[1].startswith("cast:") or z[1].startswith("f2i:")):
+                                return unc(z[2])
+                            if isinstance(z, tuple) and z[0] == "symop":
+                                return (z[0], z[1]) + tuple(unc(q) if isinstance(q, tuple) else q for q in z[2:])
+                            return z
+                        okm = S_.to_poly(unc(v)) == {(sym_,): Fr_(1), (): Fr_(-1)}
+                    except S_.NotPolynomial:
+                        okm = False
+                    if not okm:
+                        mask_bad.append(("mask|%s" % fld, "SamplerRepeatPot::new: %s is %s, not %s - 1" % (fld, str(core_)[:80], "width" if fld == "w_mask" else "height")))
+    rep.inst("C12.B-index", "SamplerRepeatPot::new in 4 scenarios: panics unless width and height are powers of two, else w_mask = width - 1, h_mask = height - 1: %s" % (not mask_bad), config=cfg)
+    for key, msg in dict(mask_bad).items():
+        rep.violate("C12.B-index", "B-index|%s" % key, nw.where(), msg, config=cfg)
     # Overflow:Sub(w, 1) in new is discharged by is_power_of_two(w) => w >= 1 : recorded, `new` itself is allowed to panic on non-POT sizes
 
     # ---- Texture construction sites
@@ -388,7 +445,14 @@ def check_config(rep, prog):
     edges = [e for e in edges if e.body is so]
     P.discharge_generic(edges, items)
     open_e = [e for e in edges if not e.discharged]
-    dbg = [e for e in open_e if e.kind == "diverge" and "debug_assert" in (e.node.get("exp") or [])]
+    def under_cfg_debug(e):
+        """`if cfg!(debug_assertions) { assert!(..) }`: the panic block lies behind a switch on a boolean literal"""
+        for bi_, blk_ in enumerate(so.blocks):
+            t_ = blk_["term"]
+            if t_["k"] == "SwitchInt" and t_["dty"] == "bool" and ("k" in t_["discr"] or "cfg" in (t_.get("exp") or [])) and so.dominates(bi_, e.bb) and bi_ != e.bb:
+                return True
+        return False
+    dbg = [e for e in open_e if e.kind == "diverge" and ("debug_assert" in (e.node.get("exp") or []) or under_cfg_debug(e))]
     extra = [e for e in open_e if e not in dbg]
     rep.inst("C12.O-once", "SamplerOnce::sample_abs: %d debug assertions, %d other panic edges in its own body" % (len(dbg), len(extra)), config=cfg)
     for e in extra:
